@@ -87,7 +87,9 @@ fn gen_history(r: &mut Rng, n: usize) -> (Vec<COp>, Vec<COp>) {
             "remove" => (format!("remove {}", k), k.to_string()),
             "increment" => (format!("increment {} {}", k, *r.pick(&[1i32, 2, 3, 4, 5, 0, 0, -2])), k.to_string()),
             "create-user" => (if r.chance(1, 3) { format!("create-user u{} secret", uniq % 2) } else { format!("create-user u{} secret{}", uniq % 2, uniq) }, format!("$$user_u{}", uniq % 2)),
-            "set-permissions" => (format!("set-permissions u{} rw k*", uniq % 2), format!("$$permission_$u{}", uniq % 2)),
+            // the list is data like any other value: letters in any order, repeated letters, several entries for one
+            // pattern, entries without a pattern - every node must end up holding the same text for it
+            "set-permissions" => (format!("set-permissions u{} {}", uniq % 2, *r.pick(&["rw k*", "wr k*", "r k*|w k*", "rwix *", "xiwr a*|r b", "rr k*", "w k*|r k*|r k*", "x *b|i *b|w a", "r", "wr", "r k*|", "i  k*"])), format!("$$permission_$u{}", uniq % 2)),
             _ => ("snapshot false".to_string(), String::new()),
         };
         seq.push(COp { node, session: 0, line, kind, key });
